@@ -312,6 +312,10 @@ impl NaiveDate {
     /// ```
     #[must_use]
     pub const fn from_isoywd_opt(year: i32, week: u32, weekday: Weekday) -> Option<NaiveDate> {
+        // The ISO year of a date differs from its calendar year by at most one.
+        if year < MIN_YEAR - 1 || year > MAX_YEAR + 1 {
+            return None; // Out-of-range
+        }
         let flags = YearFlags::from_year(year);
         let nweeks = flags.nisoweeks();
         if week == 0 || week > nweeks {
